@@ -168,8 +168,10 @@ def normalize_array_shape_and_access(routine):
             for i, d in enumerate(v.shape):
                 if is_explicit_range_index(d):
                     if isinstance(v.dimensions[i], sym.RangeIndex):
-                        start = simplify(v.dimensions[i].start - d.start + 1) if d.start is not None else None
-                        stop = simplify(v.dimensions[i].stop - d.start + 1) if d.stop is not None else None
+                        # an open end of the section (`a(:k)`, `a(k:)`, `a(:)`) stays open
+                        lower, upper = v.dimensions[i].start, v.dimensions[i].stop
+                        start = simplify(lower - d.start + 1) if lower is not None else None
+                        stop = simplify(upper - d.start + 1) if upper is not None else None
                         new_dims += [sym.RangeIndex((start, stop, v.dimensions[i].step))]
                     else:
                         start = simplify(v.dimensions[i] - d.start + 1) if d.start is not None else None
